@@ -270,7 +270,7 @@ func histMore(f []string, node func(string) *gtree.Node, massive bool) (string, 
 			if f[4] != "-" {
 				opts = append(opts, gtree.WithTargetDir(unhex(f[4])))
 			}
-			opts = append(opts, gtree.WithBranchFormatLastNode(unhex(f[5]), unhex(f[6])), gtree.WithBranchFormatIntermedialNode(unhex(f[7]), unhex(f[8])))
+			opts = append(opts, bfOptions(f[5], f[6], f[7], f[8])...)
 			opts = append(opts, mopt...)
 			opts = append(opts, encOpt(f, 9)...)
 			if f[0] == "M" {
@@ -289,7 +289,7 @@ func histMore(f []string, node func(string) *gtree.Node, massive bool) (string, 
 			if f[3] != "-" {
 				opts = append(opts, gtree.WithTargetDir(unhex(f[3])))
 			}
-			opts = append(opts, gtree.WithBranchFormatLastNode(unhex(f[4]), unhex(f[5])), gtree.WithBranchFormatIntermedialNode(unhex(f[6]), unhex(f[7])))
+			opts = append(opts, bfOptions(f[4], f[5], f[6], f[7])...)
 			opts = append(opts, mopt...)
 			opts = append(opts, encOpt(f, 9)...)
 			if f[0] == "m" {
